@@ -659,6 +659,9 @@ func c15Mix(c *Ctx) {
 			},
 		})
 	}
+	// "the client receives the upstream's response": an answer the upstream never finished (real sockets, pike reached over
+	// its own listener, with and without a proxy timeout on the location) is not handed on as a complete one
+	c05RealOriginFaults(c)
 	c15NoLeak(c)
 	c15ReloadUpstreamOption(c)
 	c15UpstreamEncodes(c)
